@@ -465,7 +465,7 @@ def run(tier, seed):
     selftest_more.test_refpatch()
     bdir = build.build("asan")
     chk = core.Check(PID, tier, seed)
-    nconf, nrob = (100000, 60000) if tier == "quick" else (1000000, 1000000)
+    nconf, nrob = (200000, 120000) if tier == "quick" else (3000000, 3000000)
     rd = core.record_dir(PID) if tier == "thorough" else None
     sh = core.parallel(shard_fn, seed=seed, tier=tier, exe=bdir + "/jcdrv", nconf=nconf, nrob=nrob)
     chk.absorb(sh)
